@@ -117,3 +117,75 @@ Proof. exact C16_ex_struct_variant_array. Qed.
    missing Option field and an unknown member, a tuple variant holding a byte buffer and a u128 *)
 Example C16_full_not_vacuous : ryu_float_form (fun _ => [49; 101; 49; 54]).
 Proof. exact ryu_float_form_instance. Qed.
+
+(* ---- arbitrary_precision (Proofs/ValueDeAgreeAp*.v): the same agreement for Values whose Numbers are literals, with the known disagreements as explicit decidable
+        exclusions in [claim_ap] — F12b (-0 into a signed 8..64-bit target), F19 (a target that IS a Value re-spells non-canonical literals: C16_ap_value_respelled says
+        exactly how), the private token as first key (F23), f64 only under float_roundtrip; every exclusion has a vm_compute witness in the proof files ---- *)
+From SJ Require Import Base.Bytes Base.Utf8 Base.FloatB Gen.Tables
+  Model.Read Model.Str Model.Num Model.NumF32 Model.Value Model.De Model.Ignore Model.Ty Model.NumberM Model.DeTyped Model.ValueDe
+  Spec.Syntax Spec.Denote Proofs.GrammarIgnore Proofs.GrammarValueComplete Proofs.SerValue Proofs.GrammarValueBase Proofs.GrammarStr Proofs.GrammarNum
+  Proofs.ValueDeRef Proofs.ValueDeAgree Proofs.ValueDeText Proofs.ValueDeAgreeKey Proofs.ValueDeAgreeMap Proofs.ValueDeAgreeMisc.
+From SJ Require Proofs.NumInt Proofs.TypedInt.
+From SJ Require Import Proofs.ApNumber Proofs.ApNumberFloat Proofs.ValueInt Proofs.LexGlue Proofs.LexOracle Proofs.LexC07 Proofs.FloatDefault.
+From SJ Require Model.Sval Model.Ser Model.ValueSer Spec.Layout Proofs.SerToValueAp.
+From Coq Require Import Reals Lra.
+From Flocq Require Import Core BinarySingleNaN.
+Require Import Lia ZifyBool ZifyNat ZifyN.
+From SJ Require Import Proofs.ValueDeAgreeAp.
+Theorem C16_ap_scalars : forall cf fx t n, arbitrary_precision cf = true -> num_ok n = true -> scalar_ty t = true ->
+  (scalar_has_f64 t = true -> float_roundtrip cf = true) ->
+  scalar_excluded t (render_num n) = false ->
+  let v := VNum (NLit (render_num n)) in
+  agree (from_value_owned cf fx t v) (from_input_typed (mkEnv RSlice TEof cf) t (render_num n))
+  /\ agree (from_value_ref cf fx t v) (from_input_typed (mkEnv RSlice TEof cf) t (render_num n))
+  /\ same_mod_borrow (from_value_owned cf fx t v) (from_value_ref cf fx t v).
+Proof. exact (@ValueDeAgreeAp.C16_ap_scalars). Qed.
+Print Assumptions C16_ap_scalars.
+
+From SJ Require Import Base.Bytes Base.Utf8 Base.FloatB Gen.Tables
+  Model.Read Model.Str Model.Num Model.NumF32 Model.Value Model.De Model.Ignore Model.Ty Model.NumberM Model.DeTyped Model.ValueDe
+  Spec.Syntax Spec.Denote Proofs.GrammarIgnore Proofs.GrammarValueComplete Proofs.SerValue Proofs.GrammarValueBase Proofs.GrammarStr Proofs.GrammarNum
+  Proofs.ValueDeRef Proofs.ValueDeAgree Proofs.ValueDeText Proofs.ValueDeAgreeKey Proofs.ValueDeAgreeMap Proofs.ValueDeAgreeMisc.
+From SJ Require Proofs.NumInt Proofs.TypedInt.
+From SJ Require Import Proofs.ApNumber Proofs.ApNumberFloat Proofs.ValueInt Proofs.LexOracle Proofs.ValueDeAgreeAp.
+From SJ Require Model.Sval Model.Ser Model.ValueSer Spec.Layout Proofs.SerToValueAp Proofs.SerMain Proofs.SerFinal.
+From Flocq Require Import Core BinarySingleNaN.
+Require Import Lia ZifyBool ZifyNat ZifyN.
+From SJ Require Import Model.Sval Model.Ser Model.ValueSer Spec.Layout Proofs.SerBase Proofs.SerRender Proofs.SerWf Proofs.SerDenote
+  Proofs.SerMain Proofs.SerFinal.
+From SJ Require Import Proofs.ValueDeAgreeApValue.
+Theorem C16_ap_value_respelled : forall cf fx fmt32 fmt64 v,
+  arbitrary_precision cf = true -> ryu_json fmt32 fmt64 -> wf_value cf v = true -> no_token v = true ->
+  value_of_value cf fx v = VOk (respell fx v)
+  /\ from_value_owned cf fx TValue v = VOk (DValue (Extract.Driver.show_value (respell fx v)))
+  /\ from_value_ref cf fx TValue v = VOk (DValue (Extract.Driver.show_value (respell fx v)))
+  /\ (respell fx v = v <-> canon_value fx v = true)
+  /\ exists bufs c, serialize cf fmt32 fmt64 Compact (sval_of_value v) = Ok bufs /\ concat bufs = render c /\
+       ((limit_disabled cf = false -> (cdepth c <= 127)%nat) ->
+        from_input_typed (mkEnv RSlice TEof cf) TValue (concat bufs) = TOk (DValue (Extract.Driver.show_value v))).
+Proof. exact (@ValueDeAgreeApValue.C16_ap_value_respelled). Qed.
+Print Assumptions C16_ap_value_respelled.
+
+From SJ Require Import Base.Bytes Base.Utf8 Base.FloatB Gen.Tables
+  Model.Read Model.Str Model.Num Model.NumF32 Model.Value Model.De Model.Ignore Model.Ty Model.NumberM Model.DeTyped Model.ValueDe
+  Spec.Syntax Spec.Denote Proofs.GrammarIgnore Proofs.GrammarValueComplete Proofs.SerValue Proofs.GrammarValueBase Proofs.GrammarStr Proofs.GrammarNum
+  Proofs.ValueDeRef Proofs.ValueDeAgree.
+From SJ Require Import Proofs.SerRender Proofs.SerWf Proofs.SerDenote Proofs.ValueDeAgreeKey Proofs.ValueDeAgreeMap Proofs.ValueDeAgreeStruct
+  Proofs.ValueDeAgreeEnum Proofs.ValueDeAgreeMisc.
+From SJ Require Import Proofs.ApNumber Proofs.ValueDeAgreeAp Proofs.ValueDeAgreeApValue Proofs.ValueDeAgreeAp2.
+Require Import Lia ZifyBool ZifyNat ZifyN.
+From SJ Require Import Model.Sval Model.Ser Model.ValueSer Spec.Layout Proofs.SerBase Proofs.SerMain Proofs.SerFinal Proofs.ValueDeText.
+From Coq Require Import Strings.String Strings.Ascii.
+From Coq Require Import List.     (* `concat` below is List.concat, not String.concat *)
+From SJ Require Import Proofs.ValueDeAgreeAp3.
+Theorem C16_ap_lifted : forall cf fx fmt32 fmt64 t v,
+  arbitrary_precision cf = true -> ryu_json fmt32 fmt64 ->
+  agree_ty_ap (float_roundtrip cf) t = true -> wf_value cf v = true -> claim_ap fx (value_de_fuel t) t v = true ->
+  exists bufs c, serialize cf fmt32 fmt64 Compact (sval_of_value v) = Ok bufs /\ concat bufs = render c /\
+    ((limit_disabled cf = false -> (cdepth c <= 127)%nat) ->
+     agree (from_value_owned cf fx t v) (from_input_typed (mkEnv RSlice TEof cf) t (concat bufs))
+     /\ agree (from_value_ref cf fx t v) (from_input_typed (mkEnv RSlice TEof cf) t (concat bufs))
+     /\ same_mod_borrow (from_value_owned cf fx t v) (from_value_ref cf fx t v)).
+Proof. exact (@ValueDeAgreeAp3.C16_ap_lifted). Qed.
+Print Assumptions C16_ap_lifted.
+
